@@ -2,10 +2,16 @@
 use crate::gen::Case;
 use crate::rng::Rng;
 
-pub fn n_cases(_prop: &str, _tier: &str) -> usize {
-    0
+pub fn n_cases(prop: &str, tier: &str) -> usize {
+    match prop {
+        "C06" | "C17" => crate::props_stat::n_cases(prop, tier),
+        _ => 0,
+    }
 }
 
-pub fn gen_case(prop: &str, _tier: &str, _rng: &mut Rng, _idx: usize) -> Case {
-    panic!("no generator for property {prop}");
+pub fn gen_case(prop: &str, tier: &str, rng: &mut Rng, idx: usize) -> Case {
+    match prop {
+        "C06" | "C17" => crate::props_stat::gen_case(prop, tier, rng, idx),
+        _ => panic!("no generator for property {prop}"),
+    }
 }
